@@ -237,8 +237,7 @@ func hUnusedKeys01x() {
 //vf:quick unwind=12 decisions=300 paths=300000 preempt=1 goroutines=8
 //vf:thorough unwind=12 decisions=400 paths=3000000 preempt=2 goroutines=8
 //vf:expect reach=quiescent reach=group-destroyed reach=group-recreated
-//vf:twin
-//vf:note concurrent exploration in the engine; natively the steps run sequentially in an order exported by the engine
+//vf:note natively the same goroutines run with the engine's schedule enforced by the sequencer
 func VerifC01_InsertOrCreate() {
 	gw := model.Duration(100 * time.Hour)
 	route := NewRoute(&config.Route{Receiver: "r", GroupBy: []model.LabelName{"alertname"}, GroupWait: &gw}, nil)
@@ -258,26 +257,12 @@ func VerifC01_InsertOrCreate() {
 		func() { first.flush(func(...*alert.Alert) bool { return true }) }, // delivered: resolved alert removed, group destroyed if empty
 		func() { d.doMaintenance() },
 	}
-	if vfNative() {
-		order := vfImport("order")
-		for i := 0; i < 4; i++ {
-			steps[(order/[]int{1, 4, 16, 64}[i])%4]()
-		}
-	} else {
-		seq := 0
-		pos := 0
-		names := []string{"ingest1", "ingest2", "flush", "maintenance"}
-		for i := range steps {
-			i := i
-			vfGo(names[i], func() {
-				steps[i]()
-				seq += i * []int{1, 4, 16, 64}[pos] // completion order (a linearisation witness)
-				pos++
-			})
-		}
-		vfAdvance(time.Second)
-		vfExport("order", seq)
+	names := []string{"ingest1", "ingest2", "flush", "maintenance"}
+	for i := range steps {
+		i := i
+		vfGo(names[i], func() { steps[i]() })
 	}
+	vfAdvance(time.Second)
 	vfReach("quiescent")
 	// registered groups
 	registered := 0
